@@ -223,6 +223,7 @@ type c24ConnPlan struct {
 	Fail     error          // dialer returns this error
 	Hang     bool           // dialer blocks until its ctx ends
 	Listener *wire.Listener // connect to a real server instead of a raw peer
+	Custom   func(server *wire.Conn) // the harness plays the server end itself (no raw peer is created)
 }
 
 type c24World struct {
@@ -242,7 +243,12 @@ type c24World struct {
 	engine    []string
 	cancels   []context.CancelFunc
 	closed    bool
+	rawConns  []*wire.Conn
 }
+
+// c24StateHook, when set, rewrites the resolver state of the next world (used
+// to attach a service config + config selector). Consumed by c24NewWorld.
+var c24StateHook func(resolver.State) resolver.State
 
 func (w *c24World) fail(format string, a ...any) {
 	w.mu.Lock()
@@ -276,6 +282,13 @@ func (w *c24World) dial(ctx context.Context, addr string) (net.Conn, error) {
 		return p.Listener.Dial()
 	}
 	c, s := wire.Pipe()
+	if p.Custom != nil {
+		p.Custom(s)
+		w.mu.Lock()
+		w.rawConns = append(w.rawConns, s)
+		w.mu.Unlock()
+		return c, nil
+	}
 	peer := wire.NewServerPeer(s)
 	peer.AutoAckSettings = true
 	peer.AutoAckPing = true
@@ -293,8 +306,13 @@ func c24NewWorld(t *testing.T, serviceConfig string, withAddrs bool, plan func(i
 	c24Cur = w
 	w.res = manual.NewBuilderWithScheme("c24")
 	if withAddrs {
-		w.res.InitialState(resolver.State{Addresses: []resolver.Address{{Addr: "good"}}})
+		st := resolver.State{Addresses: []resolver.Address{{Addr: "good"}}}
+		if c24StateHook != nil {
+			st = c24StateHook(st)
+		}
+		w.res.InitialState(st)
 	}
+	c24StateHook = nil
 	opts := []grpc.DialOption{
 		grpc.WithResolvers(w.res),
 		grpc.WithContextDialer(w.dial),
@@ -441,6 +459,12 @@ func (w *c24World) close() {
 	}
 	for _, p := range w.peerList() {
 		p.Close()
+	}
+	w.mu.Lock()
+	raws := w.rawConns
+	w.mu.Unlock()
+	for _, c := range raws {
+		c.Close()
 	}
 	synctest.Wait()
 }
